@@ -95,12 +95,14 @@ def main():
     seed = 1
     only = None
     scale = 1.0
+    recheck = False
     a = sys.argv[1:]
     while a:
         if a[0] == "--per-file": per_file = int(a[1]); a = a[2:]
         elif a[0] == "--seed": seed = int(a[1]); a = a[2:]
         elif a[0] == "--only": only = a[1]; a = a[2:]
         elif a[0] == "--runs-scale": scale = float(a[1]); a = a[2:]
+        elif a[0] == "--recheck": recheck = True; a = a[1:]
         else: sys.exit("unknown arg " + a[0])
     rnd = random.Random(seed)
     sh("git -C /repo worktree remove --force %s" % W)
@@ -117,6 +119,15 @@ def main():
             f = l.rstrip("\n").split("\t")
             if len(f) >= 4:
                 done.add((f[0], f[1], f[2], f[3]))
+    survivors = {}
+    if recheck:  # only the mutants that survived an earlier pass, against the checks as they are now
+        for l in open(res_path):
+            f = l.rstrip("\n").split("\t")
+            if len(f) >= 5 and f[4] == "SURVIVED":
+                survivors.setdefault(f[0], []).append((int(f[1]) - 1, f[2], f[3]))
+        res_path = os.path.join(V, "mutation", "recheck.tsv")
+        if os.path.exists(res_path): os.unlink(res_path)
+        done = set()
     out = open(res_path, "a")
     try:
         for rel, props in FILES.items():
@@ -125,6 +136,15 @@ def main():
             path = os.path.join(W, rel)
             lines = open(path).read().split("\n")
             cand = []
+            if recheck:
+                for (i, op, newtxt) in survivors.get(rel, []):
+                    old = lines[i]
+                    cand.append((i, op, old, old[:len(old) - len(old.lstrip())] + newtxt))
+                lines_scan = []
+            else:
+                lines_scan = lines
+            lines_all = lines
+            lines = lines_scan
             in_comment = False
             for i, line in enumerate(lines):
                 if in_comment:
@@ -139,7 +159,8 @@ def main():
                 for op, new in mutants_of_line(code):
                     if new != code:
                         cand.append((i, op, line, line.replace(code, new, 1)))
-            rnd.shuffle(cand)
+            lines = lines_all
+            if not recheck: rnd.shuffle(cand)
             taken = 0
             for (i, op, old, new) in cand:
                 if taken >= per_file:
